@@ -213,13 +213,14 @@ EVAL_ERRORS = []
 CASE_TIMEOUT = {"quick": 400, "thorough": 2400}
 
 
-class ImplTooSlow(Exception):
+class ImplTooSlow(BaseException):
     """the implementation did not get through the inputs within the budget (a hang, or work that grows without bound)"""
 
 
 # wall-clock budget for running the implementation on one pass of inputs; the unchanged tree needs a few seconds
 # (the slowest, the pty-driven C08 / C12, 10-30 s quick and 2-4 min thorough)
-IMPL_BUDGET = {"quick": 420, "thorough": 2400, "search": 150}
+IMPL_BUDGET = {"quick": 420, "thorough": 2400, "search": 150, "shrink": 45}
+SHRINK_BUDGET = 150            # seconds for minimising one failing input
 SEARCH_MAX_INPUTS = 20000
 ONE_INPUT_BUDGET = 120
 TOO_SLOW = []
@@ -287,7 +288,10 @@ def shrink(pid, mod, inp, which):
     if not hasattr(mod, "shrink"):
         return inp
     cur = inp
+    t_start = time.time()
     for _ in range(12):
+        if time.time() - t_start > SHRINK_BUDGET:
+            break
         cands = []
         for c in mod.shrink(cur):
             cands.append(c)
@@ -296,7 +300,7 @@ def shrink(pid, mod, inp, which):
         if not cands:
             break
         try:
-            items = run_impl(mod, cands)
+            items = run_impl(mod, cands, "shrink")
             fails = evaluate(pid, mod, items, "shrink")[which]
         except Exception:
             break
